@@ -100,6 +100,11 @@ type Case struct {
 	Workers      int      `json:"workers,omitempty"`
 	Cache        string   `json:"cache,omitempty"` // mem dir1 dirdirect dirasync
 	Ops          []Op     `json:"ops,omitempty"`
+	// layers: several layers through one layer.Resolver
+	Layers     [][]Ent `json:"layers,omitempty"`
+	LReads     []LRead `json:"lreads,omitempty"`
+	FSCache    string  `json:"fscache,omitempty"`
+	SkipVerify bool    `json:"skip_verify,omitempty"`
 	// clean
 	Name string `json:"name,omitempty"`
 	// attr
@@ -935,7 +940,7 @@ var (
 func bigLayer() *io.SectionReader {
 	bigOnce.Do(func() {
 		var ents []Ent
-		for i := 0; i < 3000; i++ {
+		for i := 0; i < 1500; i++ {
 			ents = append(ents, Ent{Name: fmt.Sprintf("big/d%d/file-with-a-rather-long-name-%d", i%50, i), Kind: "reg", Mode: 0o644, Mtime: 1,
 				Data: []byte{byte(i)}, Xattrs: map[string]string{"user.padding": strings.Repeat("x", 200)}})
 		}
@@ -1128,6 +1133,8 @@ func Main(st Store) {
 			if got != oracleClean(c.Name) {
 				ctx.Violation(id, fmt.Sprintf("cleanEntryName(%q) = %q, expected %q", c.Name, got, oracleClean(c.Name)), nil)
 			}
+		case "layers":
+			emitLayers(ctx, st, c, tmpRoot)
 		case "attr":
 			a := c.Attr
 			ma := metadata.Attr{Size: a.Size, ModTime: time.Unix(a.Mtime, 0), LinkName: a.Link, Mode: os.FileMode(a.Mode), UID: a.UID, GID: a.GID,
@@ -1203,7 +1210,9 @@ func Main(st Store) {
 	r := hx.NewRng(hx.NewRng(ctx.Seed).U64())
 	for i := len(corpus()); i < ctx.N; i++ {
 		rr := r.Fork()
-		switch rr.Pick(6, 2, 2) {
+		switch rr.Pick(6, 2, 2, 1) {
+		case 3:
+			emit(genLayers(rr))
 		case 0:
 			emit(genServe(rr, ctx.Tier))
 		case 1:
